@@ -171,10 +171,23 @@ def c_sizeof(t):
 
 
 def is_num(v):
-    return isinstance(v, (int, Fraction, Node)) and not isinstance(v, bool)
+    return isinstance(v, (int, Fraction, Node, ArrBox)) and not isinstance(v, bool)
+
+
+class ArrBox:
+    """array mode: a numpy array is a mutable object -- `x = y` makes two names for one array and `x *= c` changes it for both.  An ArrBox is that object; its content is the
+    (immutable) expression for one generic element.  Arithmetic reads the content and yields a fresh ArrBox; augmented assignment replaces the content in place."""
+    __slots__ = ('v',)
+    def __init__(self, v): self.v = v
+    def __repr__(self): return f'<array {X.show(self.v)[:40]}>'
+
+
+def unbox(v):
+    return v.v if isinstance(v, ArrBox) else v
 
 
 def to_node(v):
+    if isinstance(v, ArrBox): v = v.v
     if isinstance(v, Node): return v
     if isinstance(v, bool): return X.const(int(v))
     if isinstance(v, (int, Fraction, float, complex)): return X.const(v)
@@ -183,6 +196,7 @@ def to_node(v):
 
 def concrete(v):
     """Node const -> Fraction/int, else None"""
+    if isinstance(v, ArrBox): v = v.v
     if isinstance(v, bool): return int(v)
     if isinstance(v, (int, Fraction)): return v
     if isinstance(v, Node) and v.op == 'const':
@@ -305,7 +319,12 @@ class Interp:
             return
         if isinstance(st, ast.AugAssign):
             cur = self.eval(_as_load(st.target), fr)
-            v = self.binop(st.op, cur, self.eval(st.value, fr), st)
+            rhs = self.eval(st.value, fr)
+            if isinstance(cur, ArrBox):
+                r_ = self.binop(st.op, cur.v, unbox(rhs), st)
+                cur.v = unbox(r_)                # the array object itself changes: every name / container entry bound to it sees the new content
+                return
+            v = self.binop(st.op, cur, rhs, st)
             self.assign(st.target, v, fr, st)
             return
         if isinstance(st, ast.Return):
@@ -428,6 +447,7 @@ class Interp:
         raise AnalysisError(f'{fr.mod.where(st)}: unsupported statement {type(st).__name__}')
 
     def truth(self, v, st, fr):
+        v = unbox(v)
         if isinstance(v, Node):
             c = concrete(v)
             if c is not None:
@@ -552,6 +572,12 @@ class Interp:
 
     # ------------------------------------------------------------ expressions
     def eval(self, e, fr):
+        v = self._eval(e, fr)
+        if getattr(self, 'array_mode', False) and isinstance(v, Node) and isinstance(e, (ast.BinOp, ast.Call, ast.UnaryOp, ast.IfExp)) and concrete(v) is None:
+            return ArrBox(v)             # a freshly computed array
+        return v
+
+    def _eval(self, e, fr):
         h = self.hooks.get('expr')
         if h is not None:
             r = h(self, e, fr)
@@ -756,7 +782,7 @@ class Interp:
         return None
 
     def e_UnaryOp(self, e, fr):
-        v = self.eval(e.operand, fr)
+        v = unbox(self.eval(e.operand, fr))
         if isinstance(e.op, ast.USub):
             if isinstance(v, (int, Fraction)) and not isinstance(v, bool): return -v
             if isinstance(v, Opaque): return Opaque('arith')
@@ -831,6 +857,9 @@ class Interp:
         raise AnalysisError(f'{fr.mod.where(target)}: unsupported address-of `{ast.unparse(target)[:60]}`')
 
     def binop(self, op, a, b, e=None, fr=None):
+        if isinstance(a, ArrBox) or isinstance(b, ArrBox):
+            r_ = self.binop(op, unbox(a), unbox(b), e, fr)
+            return ArrBox(r_) if isinstance(r_, (Node, int, Fraction)) and not isinstance(r_, bool) else r_
         # concrete integer / rational arithmetic stays concrete
         if isinstance(a, bool): a = int(a)
         if isinstance(b, bool): b = int(b)
@@ -942,6 +971,7 @@ class Interp:
         return result
 
     def compare(self, op, a, b, e, fr):
+        a = unbox(a); b = unbox(b)
         if isinstance(a, TypeTag) or isinstance(b, TypeTag):
             if isinstance(op, (ast.Is, ast.Eq)): return a == b
             if isinstance(op, (ast.IsNot, ast.NotEq)): return not (a == b)
@@ -1185,6 +1215,8 @@ class Interp:
         raise AnalysisError(f'{fr.mod.where(e)}: call of unsupported callee `{ast.unparse(e.func)[:60]}` ({type(f).__name__})')
 
     def builtin(self, name, args, kwargs, e, fr):
+        if any(isinstance(a_, ArrBox) for a_ in args) and name.split('.')[-1] not in ('type', 'isinstance', 'shape', 'ones_like', 'zeros_like', 'len'):
+            args = [unbox(a_) for a_ in args]
         nm = name.split('.')[-1]
         if name.startswith('conj_of:'):
             return X.fn('conj', X.node_by_uid(int(name.split(':')[1])))
@@ -1300,7 +1332,7 @@ class Interp:
                 return nm == 'isfinite'
             return Opaque(nm)
         if nm == 'isinstance':
-            if getattr(self, 'array_mode', False) and len(args) == 2 and isinstance(args[0], Node) and concrete(args[0]) is None:
+            if len(args) == 2 and (isinstance(args[0], ArrBox) or (getattr(self, 'array_mode', False) and isinstance(args[0], Node) and concrete(args[0]) is None)):
                 names = [getattr(t_, 'name', '') for t_ in (args[1] if isinstance(args[1], (tuple, list)) else [args[1]])]
                 if any(str(n_).split('.')[-1] == 'ndarray' for n_ in names):
                     return True
@@ -1309,7 +1341,7 @@ class Interp:
             a = args[0]
             if isinstance(a, int) and not isinstance(a, bool):
                 return TypeTag('int')       # a concrete Python int (an index, a degree): `type(x) == int` holds; it is still not an array
-            if getattr(self, 'array_mode', False) and isinstance(a, Node) and concrete(a) is None:
+            if isinstance(a, ArrBox) or (getattr(self, 'array_mode', False) and isinstance(a, Node) and concrete(a) is None):
                 return TypeTag('ndarray')   # array mode: every symbolic input stands for a numpy array (one generic element of it)
             return TypeTag('scalar' if isinstance(a, (Node, Fraction)) else type(a).__name__)
         if nm == 'print':
